@@ -23,6 +23,144 @@ VIEWS = {
 }
 
 
+# element widths a consumer of a counted view reads per element (from the protocol: analog samples are 16- or 32-bit)
+VIEW_UNITS = {"AnalogPayload": ("getSampleDt", NS + "AnalogPayload::SampleDt", {"aInt16": 2, "aInt32": 4})}
+
+
+def _view_syms(fb):
+    def syms(x):
+        if x.get("k") == "call":
+            c = x.get("callee") or {}
+            if c.get("nm") == "data" and "obj" in x and fb.is_payload_buffer(x["obj"]):
+                return "D"
+            if c.get("nm") == "size" and "obj" in x and fb.is_payload_buffer(x["obj"]):
+                return "L"
+            if c.get("name") == NS + "Payload::getLength":
+                return "L"
+            if c.get("name") == NS + "Payload::getRawPayload":
+                return "D"
+            if (x.get("t") or {}).get("k") == "ptr" and c.get("inrepo") and facts.inline_accessor(fb, x) is None:
+                return "C:" + canon(x)
+        return None
+    return syms
+
+
+def pointer_rows(fb, ptrf):
+    """Linear forms {D|C:<call>: 1, 1: k} of the non-null values the pointer getter returns (one per path)."""
+    from rules.decoder_rules import _linear
+    out = []
+    for p in paths.enumerate_paths(ptrf):
+        if p.end != "exit":
+            continue
+        v = paths.returned_value(p)
+        if v is None or paths.is_null_value(v):
+            continue
+        form = _linear(ptrf, v, _view_syms(fb))
+        out.append((p, v, form))
+    return out
+
+
+def rule_view_extent(fb, res, cls, key, ptrf, lenf, hsize, bound_minus=None, reader_arg=None):
+    """C03-R2b, second half: the pointer of a view pair points where the bound on its length was established.
+    bound_minus = m: length <= size - m (validator), pointer must be data() + k with k <= m;
+    reader_arg = A: length comes from a bounded reader at A ((end - A) - 2 >= length), pointer must be A + j, 0 <= j <= 2;
+    neither: the length getter computes (size - c) / w itself: k <= c and w >= the element width on that path."""
+    from rules.decoder_rules import _linear
+    rows = pointer_rows(fb, ptrf)
+    if not rows:
+        raise Broken("%s returns no pointer value the analysis can read" % ptrf.name)
+    syms = _view_syms(fb)
+    for p, v, form in rows:
+        if form is None:
+            raise Broken("%s: returned pointer `%s` is not a base plus a constant offset" % (ptrf.name, canon(v)[:80]))
+        bases = sorted(k for k in form if k != 1 and form[k])
+        k = form.get(1, 0)
+        if reader_arg is not None:
+            fa = _linear(lenf, reader_arg, syms)
+            if fa is None:
+                raise Broken("%s: the reader's pointer argument is not a base plus constant" % lenf.name)
+            d = dict(form)
+            for s2, c2 in fa.items():
+                d[s2] = d.get(s2, 0) - c2
+            nz = {s2: c2 for s2, c2 in d.items() if c2 and s2 != 1}
+            j = d.get(1, 0)
+            ok = not nz and 0 <= j <= 2
+            res.check(ok, "C03-R2b", key + ":extent", v.get("loc") or ptrf.loc, "data pointer = the bounded reader's position + %d" % j,
+                      "%s returns a pointer that is not the position its length was read and bounded at plus 2 (difference %s%+d): the %s() bytes "
+                      "behind it are not covered by the reader's guard" % (ptrf.name.split("::")[-1], "+".join(sorted(nz)) or "", j, lenf.name.split("::")[-1]))
+            continue
+        if bases != ["D"] or form["D"] != 1:
+            raise Broken("%s: returned pointer is not payload data() + constant (%s)" % (ptrf.name, bases))
+        if bound_minus is not None:
+            res.check(0 <= k <= bound_minus, "C03-R2b", key + ":extent", v.get("loc") or ptrf.loc,
+                      "data pointer = data() + %d, length <= size - %d" % (k, bound_minus),
+                      "%s returns data() + %d but the validator bounds the length only by size - %d: the last %d byte(s) of the view lie "
+                      "behind the payload" % (ptrf.name.split("::")[-1], k, bound_minus, k - bound_minus))
+            continue
+        # the length getter derives the count from the payload size itself
+        unit = VIEW_UNITS.get(cls)
+        for lp in paths.enumerate_paths(lenf):
+            if lp.end != "exit":
+                continue
+            lv = paths.returned_value(lp)
+            if lv is None or const_value(lv) == 0:
+                continue
+            lv = strip_all_casts(facts.expand(lenf, lv)) if lv.get("k") == "ref" else lv
+            w = 1
+            num = lv
+            if lv.get("k") == "bin" and lv.get("op") == "/":
+                fw = _linear(lenf, lv["r"], syms)
+                if fw is None or set(fw) != {1} or fw[1] <= 0:
+                    raise Broken("%s: divisor of the element count is not a constant" % lenf.name)
+                w, num = fw[1], lv["l"]
+            fn_ = _linear(lenf, num, syms)
+            if fn_ is None or fn_.get("L") != 1 or any(c2 for s2, c2 in fn_.items() if s2 not in ("L", 1)):
+                raise Broken("%s: element count is not (payload size - constant) / width (`%s`)" % (lenf.name, canon(lv)[:80]))
+            c = -fn_.get(1, 0)
+            need = 1
+            if unit:
+                getter, ename, widths = unit
+                vals = {e["value"]: widths.get(e["name"]) for e in fb.enum(ename)["enumerators"]}
+                if None in vals.values():
+                    raise Broken("%s: no element width known for an enumerator of %s" % (cls, ename))
+                poss = set(vals)
+                for a in lp.atoms:
+                    if a[0] == "cmp" and a[2] in ("==", "!="):
+                        for x, y in ((a[4], a[5]), (a[5], a[4])):
+                            if getter in canon(x) and const_value(y) in vals:
+                                poss = (poss & {const_value(y)}) if a[2] == "==" else (poss - {const_value(y)})
+                    elif a[0] == "switch" and getter in a[1] and a[2] != "default":
+                        poss &= {a[2]} if a[2] in vals else poss
+                need = max([vals[x] for x in poss] or [1])
+            res.check(k <= c and w >= need, "C03-R2b", key + ":extent:%s" % ("w%d" % w), lv.get("loc") or lenf.loc,
+                      "count = (size - %d) / %d, data pointer = data() + %d, element width %d" % (c, w, k, need),
+                      "%s() reports (size - %d) / %d elements of %d byte(s) at data() + %d: the view extends %s" %
+                      (lenf.name.split("::")[-1], c, w, need, k, "behind the payload" if (k > c or w < need) else "?"))
+
+
+def walk_depth(fb, f, depth=3):
+    """Number of walker steps (calls of class helpers that take a position pointer and return the next position, bare or inside a
+    struct) executed before the value is returned,
+    the same on every path; through a callee whose result's data()/size() is returned.  None when paths disagree."""
+    counts = set()
+    for p in paths.enumerate_paths(f):
+        if p.end != "exit":
+            continue
+        n = 0
+        for _, c in p.elems():
+            if c.get("k") == "call":
+                g = fb.resolve_call(c)
+                if g is not None and g.rec == f.rec and g.params and (g.params[0]["t"] or {}).get("k") == "ptr" and (g.raw.get("rett") or {}).get("k") in ("ptr", "rec"):
+                    n += 1
+                elif g is not None and g.rec == f.rec and g.key != f.key and depth > 0 and g.cfg_raw and not g.params and "string_view" in (g.raw.get("ret") or ""):
+                    d = walk_depth(fb, g, depth - 1)
+                    if d is None:
+                        return None
+                    n += d
+        counts.add(n)
+    return counts.pop() if len(counts) == 1 else None
+
+
 def find_method(fb, cls, name, const=None):
     from cmpverif.accessors import find_method as fm
     return fm(fb, cls, name, None, const)
@@ -314,9 +452,12 @@ def run(ctx):
             key = "%s:%s/%s" % (cls, pg, lg)
             if "ASAM::CMP::Payload::getLength" in called_names(lenf.body):
                 res.ok("C03-R2b", key, lenf.loc, "length derives from the payload's own size")
+                rule_view_extent(fb, res, cls, key, ptrf, lenf, hsize)
             elif hg:
                 nm = callee_name(hg[0])
                 okb = any(b[0] == nm and b[1] >= hsize for b in bounded)
+                if okb:
+                    rule_view_extent(fb, res, cls, key, ptrf, lenf, hsize, bound_minus=max(b[1] for b in bounded if b[0] == nm))
                 res.check(okb, "C03-R2b", key, lenf.loc, "%s() is bounded by the validator (<= size - %d)" % (nm.split("::")[-1], hsize),
                           "the view %s()/%s() is %s() bytes long but %s::isValidPayload does not bound that field by the payload size: a "
                           "payload accepted as valid reports data beyond its own bytes" % (pg, lg, nm.split("::")[-1], cls))
@@ -331,6 +472,7 @@ def run(ctx):
                     br = bounded_reader(fb, g)
                     if br is True:
                         ok = True
+                        rule_view_extent(fb, res, cls, key, ptrf, lenf, hsize, reader_arg=c["args"][0])
                     elif br:
                         why = br
                 if not ok and cls == "CaptureModulePayload":
@@ -341,6 +483,13 @@ def run(ctx):
                                                                                  (x.get("callee") or {}).get("nm") in ("size", "length")
                                                                                  for x in walk(facts.expand(lenf, r["e"])) if x.get("k") == "call") for r in rets)
                     why = "length is the size of a view built by the walker (guards checked under C03-R2c)"
+                    if ok:
+                        dl, dp = walk_depth(fb, lenf), walk_depth(fb, ptrf)
+                        if dl is None or dp is None or not dl:
+                            raise Broken("%s/%s: walker steps before the return differ between paths" % (pg, lg))
+                        res.check(dl == dp, "C03-R2b", key + ":extent", ptrf.loc, "pointer and length come from the same walker position (%d steps each)" % dl,
+                                  "%s() returns the field after %d walker steps, %s() the length of the field after %d: pointer and length belong "
+                                  "to different fields" % (pg, dp, lg, dl))
                 res.check(ok, "C03-R2b", key, lenf.loc, "length produced by a bounded reader / guarded walker", "%s()/%s(): %s" % (pg, lg, why))
         # ---- walkers: raw accesses in accessor-reachable member functions of the class (excluding builders and validators)
         for f in fb.all_functions():
